@@ -73,21 +73,18 @@ func makeDeadline(d time.Duration) fasttime {
 		// recalculate our end value: the time read above may have been stale
 		// even if another goroutine has restarted the clock since
 		end = fast.current.read() + deadlineTicks(d)
-		fast.mu.Unlock()
-		if verifOn {
-			verifClockPoint(3)
-		}
+		// start or extend the clock before the lock is released, so that no
+		// time passes between refreshing fast.current and the updater's start
 		extendClock(end)
+		fast.mu.Unlock()
 	}
 
 	return end
 }
 
 // extendClock ensures that clock is live and will run until at least end.
+// fast.mu must be held.
 func extendClock(end fasttime) {
-	fast.mu.Lock()
-	defer fast.mu.Unlock()
-
 	if fast.start.IsZero() {
 		fast.start = time.Now()
 	}
